@@ -460,8 +460,16 @@ Proof. intros P Z s a. apply NSIx_core. reflexivity. Qed.
 Lemma NSIx_remove_expected : forall P Z s a, NSIx P Z s -> NSIx P Z (remove_expected s a).
 Proof. intros P Z s a. apply NSIx_core. reflexivity. Qed.
 
-Lemma core_sess_get : forall s na, core (with_hs s (fst (sess_get (hs s) na))) = core s.
-Proof. intros s na. unfold sess_get. destruct (alist_get na (sessions (hs s))); reflexivity. Qed.
+Lemma core_sess_get : forall c s na, core (with_hs s (fst (sess_get c (hs s) na))) = core s.
+Proof.
+  intros c s na. destruct (sess_get_frame c (hs s) na) as (A & B & _). unfold core. cbn [with_hs hs dr].
+  rewrite A, B. reflexivity.
+Qed.
+Lemma core_remove_expired_sessions : forall c s, core (remove_expired_sessions c s) = core s.
+Proof.
+  intros c s. destruct (remove_expired_sessions_frame c s) as (A & B & _). unfold core.
+  rewrite A, B, remove_expired_sessions_dr. reflexivity.
+Qed.
 
 (* drawing *)
 Lemma pop_pk_cases : forall d q d', pop_pk d = (q, d') ->
@@ -538,10 +546,10 @@ Proof.
   split; [reflexivity|]. apply (P _ _ H eq_refl).
 Qed.
 
-Lemma is_awaiting_session_core : forall s na, core (fst (is_awaiting_session s na)) = core s.
+Lemma is_awaiting_session_core : forall c s na, core (fst (is_awaiting_session c s na)) = core s.
 Proof.
-  intros s na. unfold is_awaiting_session. pose proof (core_sess_get s na) as H.
-  destruct (sess_get (hs s) na) as [h se]. cbn [fst] in H. destruct se; exact H.
+  intros c s na. unfold is_awaiting_session. pose proof (core_sess_get c s na) as H.
+  destruct (sess_get c (hs s) na) as [h se]. cbn [fst] in H. destruct se; exact H.
 Qed.
 
 Lemma push_pending_core : forall s na q, core (with_hs s (push_pending (hs s) na q)) = core s.
@@ -553,15 +561,15 @@ Proof.
   intros Z c s ct ext rid body now H. unfold send_request.
   destruct (existsb (N.eqb (c_addr ct)) (cfg_listen c)); [exact H|].
   assert (H1 : NSI Z (fst (if has_challenge (hs s) (c_naddr ct) then (s, true)
-                          else is_awaiting_session s (c_naddr ct)))).
+                          else is_awaiting_session c s (c_naddr ct)))).
   { destruct (has_challenge (hs s) (c_naddr ct)); [exact H|].
     eapply NSIx_core; [apply is_awaiting_session_core|exact H]. }
-  destruct (if has_challenge (hs s) (c_naddr ct) then (s, true) else is_awaiting_session s (c_naddr ct))
+  destruct (if has_challenge (hs s) (c_naddr ct) then (s, true) else is_awaiting_session c s (c_naddr ct))
     as [s1 aw]. cbn [fst] in H1.
   destruct aw; cbn [fst].
   - eapply NSIx_core; [apply push_pending_core|exact H1].
-  - pose proof (core_sess_get s1 (c_naddr ct)) as H4.
-    destruct (sess_get (hs s1) (c_naddr ct)) as [h2 se]. cbn [fst] in H4.
+  - pose proof (core_sess_get c s1 (c_naddr ct)) as H4.
+    destruct (sess_get c (hs s1) (c_naddr ct)) as [h2 se]. cbn [fst] in H4.
     assert (H2 : NSI Z (with_hs s1 h2)) by (eapply NSIx_core; eauto).
     destruct se as [se|].
     + destruct (encrypt_message_nsi Z c (with_hs s1 h2) (c_naddr ct) se (MReq rid body) H2) as [H5 H6].
@@ -604,8 +612,10 @@ Qed.
 Lemma fail_session_nsi : forall Z c s na err rm, NSI Z s -> NSI Z (fail_session c s na err rm).
 Proof.
   intros Z c s na err rm H. unfold fail_session.
-  set (s1 := if rm then with_hs s (sess_remove (hs s) na) else s).
-  assert (H1 : NSI Z s1). { subst s1. destruct rm; [|exact H]. eapply NSIx_core; [|exact H]. reflexivity. }
+  set (s1 := if rm then let s0 := remove_expired_sessions c s in with_hs s0 (sess_remove (hs s0) na) else s).
+  assert (H1 : NSI Z s1).
+  { subst s1. destruct rm; [|exact H]. cbv zeta.
+    eapply NSIx_core; [|eapply NSIx_core; [apply (core_remove_expired_sessions c)|exact H]]. reflexivity. }
   clearbody s1.
   set (s2 := match alist_get na (pending (hs s1)) with Some l => _ | None => s1 end).
   assert (H2 : NSI Z s2).
@@ -666,9 +676,10 @@ Qed.
 Lemma replay_active_requests_nsi : forall Z c s na skip now, NSI Z s -> NSI Z (replay_active_requests c s na skip now).
 Proof.
   intros Z c s na skip now H. unfold replay_active_requests.
-  pose proof (core_sess_get s na) as H1.
-  destruct (sess_get (hs s) na) as [h1 se]. cbn [fst] in H1. destruct se as [se0|]; [|exact H].
+  pose proof (core_sess_get c s na) as H1.
+  destruct (sess_get c (hs s) na) as [h1 se]. cbn [fst] in H1.
   assert (H0 : NSI Z (with_hs s h1)) by (eapply NSIx_core; eauto).
+  destruct se as [se0|]; [|exact H0].
   match goal with |- context [fold_left ?f ?l (with_hs s h1, se0, [])] =>
     assert (X : let acc := fold_left f l (with_hs s h1, se0, []) in
                 NSIx (FreshNs (map (fun x => snd (pkt_nonce (snd x))) (snd acc)) (fst (fst acc))) Z (fst (fst acc))) end.
@@ -696,8 +707,11 @@ Qed.
 Lemma new_session_nsi : forall Z c s na se skip now, NSI Z s -> NSI Z (new_session c s na se skip now).
 Proof.
   intros Z c s na se skip now H. unfold new_session.
-  pose proof (core_sess_get s na) as H1.
-  destruct (sess_get (hs s) na) as [h1 cur]. cbn [fst] in H1.
+  assert (H0 : NSI Z (remove_expired_sessions c s)).
+  { eapply NSIx_core; [apply core_remove_expired_sessions|exact H]. }
+  clear H. revert H0. generalize (remove_expired_sessions c s). clear s. intros s H.
+  pose proof (core_sess_get c s na) as H1.
+  destruct (sess_get c (hs s) na) as [h1 cur]. cbn [fst] in H1.
   assert (H2 : NSI Z (with_hs s h1)) by (eapply NSIx_core; eauto).
   destruct cur as [cs|].
   - match goal with |- context [replay_active_requests c ?s1 na skip now] =>
@@ -726,9 +740,10 @@ Qed.
 Lemma send_response_nsi : forall Z c s na rid rb, NSI Z s -> NSI Z (send_response c s na rid rb).
 Proof.
   intros Z c s na rid rb H. unfold send_response.
-  pose proof (core_sess_get s na) as H1.
-  destruct (sess_get (hs s) na) as [h1 se]. cbn [fst] in H1. destruct se as [se|]; [|exact H].
+  pose proof (core_sess_get c s na) as H1.
+  destruct (sess_get c (hs s) na) as [h1 se]. cbn [fst] in H1.
   assert (H2 : NSI Z (with_hs s h1)) by (eapply NSIx_core; eauto).
+  destruct se as [se|]; [|exact H2].
   destruct (encrypt_message_nsi Z c (with_hs s h1) na se (MResp rid rb) H2) as [Y1 Y2].
   destruct (encrypt_message c (with_hs s h1) na se (MResp rid rb)) as [[s2 se'] p]. cbn [fst snd] in *.
   apply NSI_of_x in Y2. eapply NSIx_core; [|exact Y2]. reflexivity.
@@ -778,8 +793,9 @@ Qed.
 Lemma handle_message_nsi : forall Z c s na n aad ct now, NSI Z s -> NSI Z (handle_message c s na n aad ct now).
 Proof.
   intros Z c s na n aad ct now H. unfold handle_message.
-  pose proof (core_sess_get s na) as H1.
-  destruct (sess_get (hs s) na) as [h1 se]. cbn [fst] in H1. destruct se as [se|]; [|apply NSIx_emit; exact H].
+  pose proof (core_sess_get c s na) as H1.
+  destruct (sess_get c (hs s) na) as [h1 se]. cbn [fst] in H1.
+  destruct se as [se|]; [|apply NSIx_emit; eapply NSIx_core; eauto].
   destruct (decrypt_message se n aad ct) as [se' m].
   set (s2 := with_hs (with_hs s h1) (sess_put (hs (with_hs s h1)) na se')).
   assert (H2 : NSI Z s2).
@@ -853,7 +869,7 @@ Proof.
   { intros s'. apply NSIx_weaken. apply incl_tl, incl_refl. }
   destruct (negb (N.eqb (snd na) src)).
   { apply (NSI_insert_inflight Z (with_hs s h1) c na r now). exact H1. }
-  destruct (rc_hs_sent r).
+  destruct (rc_hs_sent r || c_ed (rc_contact r)).
   { apply fail_request_nsi. apply W. destruct (fix_d6 c); [apply NSIx_remove_expected|]; eapply NSI_of_x; exact H1. }
   pose proof (NSI_pop (snd (rc_nonce r) :: Z) (with_hs s h1)) as P.
   destruct (pop_pk (dr (with_hs s h1))) as [[[[cn rr] aad] eph] d']. specialize (P _ _ (NSI_of_x _ _ _ H1) eq_refl).
@@ -892,8 +908,10 @@ Lemma fail_session_dr_nm : forall c s na err rm,
   forall n1 na1, cM n1 na1 (nmap (hs (fail_session c s na err rm))) <= cM n1 na1 (nmap (hs s)).
 Proof.
   intros c s na err rm. unfold fail_session.
-  set (s1 := if rm then with_hs s (sess_remove (hs s) na) else s).
-  assert (H1 : dr s1 = dr s /\ nmap (hs s1) = nmap (hs s)). { subst s1. destruct rm; split; reflexivity. }
+  set (s1 := if rm then let s0 := remove_expired_sessions c s in with_hs s0 (sess_remove (hs s0) na) else s).
+  assert (H1 : dr s1 = dr s /\ nmap (hs s1) = nmap (hs s)).
+  { subst s1. destruct rm; [|split; reflexivity]. cbv zeta. cbn [with_hs dr hs sess_remove set_sessions nmap].
+    split; [apply remove_expired_sessions_dr|apply remove_expired_sessions_frame]. }
   clearbody s1.
   set (s2 := match alist_get na (pending (hs s1)) with Some l => _ | None => s1 end).
   assert (H2 : dr s2 = dr s /\ nmap (hs s2) = nmap (hs s)).
@@ -1059,9 +1077,9 @@ Proof.
   assert (FR : forall d, NSI Z (match group_of d (nmap (hs s)) with
       | _ :: _ :: _ =>
         let (rev_order, d') := pop_rev (dr s) in
-        fire_group c {| hs := hs s; dr := d'; outs := outs s |}
+        fire_group (with_clock c (fire_time c d now)) {| hs := hs s; dr := d'; outs := outs s |}
           (if rev_order then rev (group_of d (nmap (hs s))) else group_of d (nmap (hs s))) d (fire_time c d now)
-      | _ => fire_group c s (group_of d (nmap (hs s))) d (fire_time c d now)
+      | _ => fire_group (with_clock c (fire_time c d now)) s (group_of d (nmap (hs s))) d (fire_time c d now)
       end)).
   { intros d.
     assert (G0 : NSIx (GroupOK (group_of d (nmap (hs s))) s) Z s).
@@ -1074,7 +1092,7 @@ Proof.
     { eapply NSIx_drpk; [| | |exact G0]; auto. }
     destruct G1 as [G1|[G1 G2]]; [left; exact G1|right]. split; [exact G1|].
     destruct ro; [|exact G2]. intros n na na' Hg. apply in_rev in Hg. apply G2. exact Hg. }
-  assert (FC : forall cna cd, NSI Z (fire_challenge c s cna (fire_time c cd now))).
+  assert (FC : forall cna cd, NSI Z (fire_challenge (with_clock c (fire_time c cd now)) s cna (fire_time c cd now))).
   { intros. apply fire_challenge_nsi. exact H. }
   destruct (min_deadline_nmap (nmap (hs s)) None) as [[[rn ra] rd]|];
   destruct (min_deadline_ch (challenges (hs s)) None) as [[[cna cc] cd]|].
@@ -1104,7 +1122,7 @@ Qed.
 
 (* the state of the step monad at the end of a step (it still holds the unused draws) *)
 Definition step_st (c : config) (h : hstate) (e : event) (now : N) (d : draws) : st :=
-  step_event c (fire_due c {| hs := h; dr := d; outs := [] |} now TICK_FUEL) e now.
+  step_event (with_clock c now) (fire_due (with_clock c now) {| hs := h; dr := d; outs := [] |} now TICK_FUEL) e now.
 
 Lemma step_st_hs : forall c h e now d, fst (step c h e now d) = hs (step_st c h e now d).
 Proof. intros. rewrite step_unfold. reflexivity. Qed.
@@ -1124,7 +1142,7 @@ Proof.
   intros c h e now d S [F1 F2] NE. rewrite step_st_hs. unfold not_exhausted in NE.
   assert (H0 : NSI [] {| hs := h; dr := d; outs := [] |}).
   { right. split; [|exact I]. split; [exact S|]. split; [exact F1|]. cbn [hs dr]. intros x Hx. split; [intros []|auto]. }
-  pose proof (step_event_nsi [] c _ e now (fire_due_nsi [] c now TICK_FUEL _ H0)) as X.
+  pose proof (step_event_nsi [] (with_clock c now) _ e now (fire_due_nsi [] (with_clock c now) now TICK_FUEL _ H0)) as X.
   fold (step_st c h e now d) in X. destruct X as [X|[[X _] _]]; [contradiction|exact X].
 Qed.
 
